@@ -869,7 +869,7 @@ func ruleHTTPEgress(r *core.Reporter) {
 	// reviewed exemptions (function → reason)
 	exempt := map[string]string{
 		"internal/pkg/config.readRemoteExclusionFile": "operator-supplied exclusion-file URL fetched once at start-up",
-		"cmd.getURLCmd":                               "",
+		"cmd.getURLCmd": "",
 	}
 	// reachable set from the pipeline entry points (stage Start functions), over static+CHA edges inside the module
 	reach := pipelineReachable(p)
